@@ -148,8 +148,8 @@ def check_form(job: tuple) -> dict:
     if _W is None:
         _winit()
     sw, aa, cache = _W
-    pre, opcode, selector, n, length, cls, name, tokens, il, named, regpair = job
-    out = {"pre": pre, "opcode": opcode, "selector": selector, "named": named, "cls": cls, "name": name, "sig": _mode_sig(tokens), "regpair": regpair}
+    pre, opcode, selector, n, length, cls, name, tokens, il, named, regpair, fixed = job
+    out = {"pre": pre, "opcode": opcode, "selector": selector, "named": named, "cls": cls, "name": name, "sig": _mode_sig(tokens), "regpair": regpair, "fixed": fixed}
     text, symtab = build_text(tokens, named)
     out["text"] = text
     ck = (text, named, tuple(sorted((k, repr(v.bv)) for k, v in symtab.items())))
@@ -157,7 +157,7 @@ def check_form(job: tuple) -> dict:
         try:
             cache[ck] = aa.assemble_text(text, symtab, sym_enum="member" if named else "invalid")
         except Unknown as e:
-            cache[ck] = {"status": "unknown", "exc": str(e)}
+            cache[ck] = {"status": "unknown", "exc": str(e), "symbols": sorted(getattr(e, "symbols", ()))}
     r = cache[ck]
     out["alias"] = r.get("alias")
     if "facts" not in r:
@@ -165,7 +165,28 @@ def check_form(job: tuple) -> dict:
     out.update(r["facts"])
     out["text_modes"] = _text_modes(tokens)
     if r["status"] == "unknown":
-        out.update(verdict="unknown", detail=r["exc"])
+        # the assembler branches on an operand value: decide the form value by value
+        syms = [x for x in r.get("symbols", []) if len(x) == 3 and x.startswith("in") and x[2].isdigit()]
+        idx = [int(x[2]) + 1 for x in syms if int(x[2]) + 1 not in dict(fixed) and not (int(x[2]) == 0 and selector is not None)]
+        if not idx or len(fixed) >= 2:
+            out.update(verdict="unknown", detail=r["exc"])
+            return out
+        k = idx[0]
+        subs = []
+        for v in range(256):
+            fx = {**dict(fixed), k: v}
+            c2 = sw.run_case(pre, opcode, selector, ("render", "lift"), fixed=fx)
+            if c2.status != "ok" or c2.render_exc:
+                continue
+            subs.append((v, check_form((pre, opcode, selector, c2.n, c2.length, c2.cls, c2.name, c2.tokens, c2.il, named, regpair, tuple(sorted(fx.items()))))))
+        bad = [(v, x) for v, x in subs if x["verdict"] not in ("identical", "equivalent")]
+        if not bad:
+            out["verdict"] = "equivalent"
+            return out
+        worst = bad[0][1]
+        out.update({kk: vv for kk, vv in worst.items() if kk not in ("pre", "opcode", "selector", "named")})
+        out["detail"] = f"{worst.get('detail', '')} [for operand byte {k - 1} in {_ranges([v for v, _x in bad])}]"
+        out["value_dependent"] = True
         return out
     if r["status"] == "parse-error":
         out.update(verdict="grammar", detail=r["exc"])
@@ -181,6 +202,9 @@ def check_form(job: tuple) -> dict:
     original = ([BitVec.const(pre)] if pre is not None else []) + [BitVec.const(opcode)] + [BitVec.sym(f"in{j}", 8) for j in range(n - 1)]
     if selector is not None and n > 1:
         original[(1 if pre is not None else 0) + 1] = BitVec.const(selector)
+    for k, v in fixed:
+        if k < n:
+            original[(1 if pre is not None else 0) + k] = BitVec.const(v)
     out["emitted"] = [_bstr(b) for b in emitted]
     if len(emitted) == len(original) and all(list(a.bits[:8]) == list(b.bits[:8]) for a, b in zip(emitted, original)):
         out["verdict"] = "identical"
@@ -245,6 +269,18 @@ def _facts(aa: AsmAbs, r: dict) -> dict:
         p = ins.attrs.get("_pre")
         pre = p.value() if isinstance(p, BitVec) and p.is_const() else p
     return {"carried": [m for m, _p in carried], "chosen_pre": pre}
+
+
+def _ranges(vals: list[int]) -> str:
+    vals = sorted(vals)
+    out, i = [], 0
+    while i < len(vals):
+        j = i
+        while j + 1 < len(vals) and vals[j + 1] == vals[j] + 1:
+            j += 1
+        out.append(f"0x{vals[i]:02X}" if i == j else f"0x{vals[i]:02X}..0x{vals[j]:02X}")
+        i = j + 1
+    return ",".join(out)
 
 
 def _bstr(b: BitVec) -> str:
@@ -337,7 +373,7 @@ def run(ctx: Ctx) -> None:
     for c in forms:
         variants = [True, False] if has_symbolic_name(c.tokens) else [False]
         for named in variants:
-            jobs.append((c.pre, c.opcode, c.selector, c.n, c.length, c.cls, c.name, c.tokens, c.il, named, _regpair(rows, reg_sizes, c)))
+            jobs.append((c.pre, c.opcode, c.selector, c.n, c.length, c.cls, c.name, c.tokens, c.il, named, _regpair(rows, reg_sizes, c), c.fixed))
     # group jobs with equal text onto the same worker (assembly cached per text)
     jobs.sort(key=lambda j: (str(j[7]), j[9]))
     with mp.get_context("fork").Pool(min(16, os.cpu_count() or 4), initializer=_winit) as pool:
